@@ -79,6 +79,10 @@ type Term struct {
 	hasFP bool
 	hasDiv bool
 	hasBit bool
+	ranged bool   // variable declared with a value range (asserted once per solver process)
+	rlo, rhi uint64
+	rngDone bool
+	rngLo, rngHi uint64
 }
 
 func (t *Term) IsConst() bool { return t.op == OConst }
@@ -187,6 +191,15 @@ func (c *TermCtx) Bool(b bool) *Term {
 	return c.False
 }
 func (c *TermCtx) Var(name string, w int) *Term { return c.mk(OVar, uint8(w), 0, name, nil) }
+
+// VarRanged declares a variable whose unsigned value lies in [lo,hi]; the range is part
+// of the variable (asserted once at declaration in every solver process) and is used by
+// the term simplifier.
+func (c *TermCtx) VarRanged(name string, w int, lo, hi uint64) *Term {
+	t := c.mk(OVar, uint8(w), 0, name, nil)
+	t.ranged, t.rlo, t.rhi = true, lo, hi
+	return t
+}
 
 // ---------- folding ----------
 
@@ -485,6 +498,11 @@ func (c *TermCtx) Eq(a, b *Term) *Term {
 			return c.Not(a)
 		}
 	}
+	if a.w > 0 && (a.op != OConst || b.op != OConst) {
+		if v, ok := cmpFold(OEq, a, b); ok {
+			return c.Bool(v)
+		}
+	}
 	if a.id > b.id {
 		a, b = b, a
 	}
@@ -504,76 +522,292 @@ func (c *TermCtx) Eq(a, b *Term) *Term {
 	}
 	return c.op(OEq, 0, 0, a, b)
 }
-// ubound: a cheap upper bound on the unsigned value of t.
-func ubound(t *Term) uint64 {
+// rng: static unsigned interval of t (from declared variable ranges and operator
+// structure); cached per term.
+func rng(t *Term) (uint64, uint64) {
+	if t.rngDone {
+		return t.rngLo, t.rngHi
+	}
+	lo, hi := rngCompute(t)
+	t.rngDone, t.rngLo, t.rngHi = true, lo, hi
+	return lo, hi
+}
+
+func rngCompute(t *Term) (uint64, uint64) {
+	m := mask(t.w)
+	if t.w == 0 {
+		return 0, 1
+	}
 	switch t.op {
 	case OConst:
-		return t.val
-	case OURem:
-		if t.args[1].op == OConst && t.args[1].val > 0 {
-			return t.args[1].val - 1
+		return t.val, t.val
+	case OVar:
+		if t.ranged {
+			return t.rlo, t.rhi
 		}
 	case OZExt:
-		return ubound(t.args[0])
+		return rng(t.args[0])
+	case OSExt:
+		lo, hi := rng(t.args[0])
+		if hi < uint64(1)<<(t.args[0].w-1) {
+			return lo, hi
+		}
 	case OExtract:
-		if t.val&0xff == 0 {
-			if ub := ubound(t.args[0]); ub <= mask(t.w) {
-				return ub
+		lo, hi := rng(t.args[0])
+		sh := t.val & 0xff
+		if sh == 0 {
+			if hi <= m {
+				return lo, hi
+			}
+		} else if t.val>>8 == uint64(t.args[0].w)-1 { // top bits: x >> sh
+			return lo >> sh, hi >> sh
+		}
+	case OConcat:
+		// x ++ zeros = x << k
+		if t.args[1].op == OConst && t.args[1].val == 0 {
+			lo, hi := rng(t.args[0])
+			k := uint(t.args[1].w)
+			return lo << k, hi << k
+		}
+		alo, ahi := rng(t.args[0])
+		blo, bhi := rng(t.args[1])
+		k := uint(t.args[1].w)
+		return alo<<k + blo, ahi<<k + bhi
+	case OAdd:
+		alo, ahi := rng(t.args[0])
+		blo, bhi := rng(t.args[1])
+		if ahi <= m && bhi <= m-ahi {
+			return alo + blo, ahi + bhi
+		}
+	case OSub:
+		alo, ahi := rng(t.args[0])
+		blo, bhi := rng(t.args[1])
+		if alo >= bhi {
+			return alo - bhi, ahi - blo
+		}
+	case OMul:
+		alo, ahi := rng(t.args[0])
+		blo, bhi := rng(t.args[1])
+		if ahi == 0 || bhi <= m/ahi {
+			return alo * blo, ahi * bhi
+		}
+	case OUDiv, OSDiv:
+		if t.args[1].op == OConst && t.args[1].val > 0 {
+			alo, ahi := rng(t.args[0])
+			if t.op == OUDiv || (ahi < uint64(1)<<(t.w-1) && t.args[1].val < uint64(1)<<(t.w-1)) {
+				return alo / t.args[1].val, ahi / t.args[1].val
+			}
+		}
+	case OURem, OSRem:
+		if t.args[1].op == OConst && t.args[1].val > 0 {
+			cc := t.args[1].val
+			alo, ahi := rng(t.args[0])
+			if t.op == OURem || (ahi < uint64(1)<<(t.w-1) && cc < uint64(1)<<(t.w-1)) {
+				if alo/cc == ahi/cc {
+					return alo % cc, ahi % cc
+				}
+				return 0, cc - 1
 			}
 		}
 	case OBAnd:
-		a, b := ubound(t.args[0]), ubound(t.args[1])
-		if a < b {
-			return a
+		_, ahi := rng(t.args[0])
+		_, bhi := rng(t.args[1])
+		if bhi < ahi {
+			ahi = bhi
 		}
-		return b
+		return 0, ahi
 	case OIte:
-		a, b := ubound(t.args[1]), ubound(t.args[2])
-		if a > b {
-			return a
+		alo, ahi := rng(t.args[1])
+		blo, bhi := rng(t.args[2])
+		if blo < alo {
+			alo = blo
 		}
-		return b
-	case OUDiv:
-		if t.args[1].op == OConst && t.args[1].val > 0 {
-			return ubound(t.args[0]) / t.args[1].val
+		if bhi > ahi {
+			ahi = bhi
+		}
+		return alo, ahi
+	}
+	return 0, m
+}
+
+// ubound: upper bound on the unsigned value of t.
+func ubound(t *Term) uint64 {
+	_, hi := rng(t)
+	return hi
+}
+
+// cmpFold decides a comparison from static ranges; ok=false if undecided.
+func cmpFold(op Op, a, b *Term) (val bool, ok bool) {
+	alo, ahi := rng(a)
+	blo, bhi := rng(b)
+	switch op {
+	case OUlt:
+		if ahi < blo {
+			return true, true
+		}
+		if alo >= bhi {
+			return false, true
+		}
+	case OUle:
+		if ahi <= blo {
+			return true, true
+		}
+		if alo > bhi {
+			return false, true
+		}
+	case OSlt, OSle:
+		half := uint64(1) << (a.w - 1)
+		// both intervals on one side of the sign boundary
+		sa, oka := sideOf(alo, ahi, half)
+		sb, okb := sideOf(blo, bhi, half)
+		if !oka || !okb {
+			return false, false
+		}
+		if sa != sb {
+			// negative < non-negative
+			return sa == 1, true
+		}
+		if op == OSlt {
+			return cmpFold(OUlt, a, b)
+		}
+		return cmpFold(OUle, a, b)
+	case OEq:
+		if ahi < blo || bhi < alo {
+			return false, true
+		}
+		if alo == ahi && blo == bhi && alo == blo {
+			return true, true
 		}
 	}
-	return mask(t.w)
+	return false, false
+}
+
+// sideOf: 0 = whole interval non-negative (signed), 1 = whole interval negative.
+func sideOf(lo, hi, half uint64) (int, bool) {
+	if hi < half {
+		return 0, true
+	}
+	if lo >= half {
+		return 1, true
+	}
+	return 0, false
+}
+
+// affine: t == a*v + b over the integers (no wrap-around, by static ranges) for a single
+// variable-like term v (a ranged variable, possibly extended); v == nil means constant.
+func affine(t *Term) (a uint64, v *Term, b uint64, ok bool) {
+	switch t.op {
+	case OConst:
+		return 0, nil, t.val, true
+	case OVar:
+		if t.ranged {
+			return 1, t, 0, true
+		}
+	case OZExt, OSExt:
+		in := t.args[0]
+		if in.op == OVar && in.ranged {
+			if t.op == OZExt || in.rhi < uint64(1)<<(in.w-1) {
+				return 1, t, 0, true // the extension itself acts as the variable
+			}
+		}
+	case OAdd:
+		a1, v1, b1, ok1 := affine(t.args[0])
+		a2, v2, b2, ok2 := affine(t.args[1])
+		if ok1 && ok2 && (v1 == nil || v2 == nil || v1 == v2) {
+			if _, hi := rng(t); hi < mask(t.w) || true {
+				// the static range of an Add is only known when it cannot overflow
+				alo, ahi := rng(t.args[0])
+				_, bhi := rng(t.args[1])
+				_ = alo
+				if ahi <= mask(t.w) && bhi <= mask(t.w)-ahi {
+					v := v1
+					if v == nil {
+						v = v2
+					}
+					return a1 + a2, v, b1 + b2, true
+				}
+			}
+		}
+	case OMul:
+		a1, v1, b1, ok1 := affine(t.args[0])
+		a2, v2, b2, ok2 := affine(t.args[1])
+		if ok1 && ok2 {
+			_, ahi := rng(t.args[0])
+			_, bhi := rng(t.args[1])
+			if ahi != 0 && bhi > mask(t.w)/ahi {
+				return 0, nil, 0, false
+			}
+			if v1 == nil {
+				return a2 * b1, v2, b2 * b1, true
+			}
+			if v2 == nil {
+				return a1 * b2, v1, b1 * b2, true
+			}
+		}
+	case OSub:
+		a1, v1, b1, ok1 := affine(t.args[0])
+		_, v2, b2, ok2 := affine(t.args[1])
+		if ok1 && ok2 && v2 == nil && b1 >= b2 {
+			return a1, v1, b1 - b2, true
+		}
+	}
+	return 0, nil, 0, false
+}
+
+func (c *TermCtx) fromAffine(w int, a uint64, v *Term, b uint64) *Term {
+	if v == nil || a == 0 {
+		return c.Const(w, b)
+	}
+	var t *Term = v
+	if a != 1 {
+		t = c.op(OMul, w, 0, v, c.Const(w, a))
+	}
+	if b != 0 {
+		t = c.op(OAdd, w, 0, t, c.Const(w, b))
+	}
+	return t
+}
+
+// divRemFold simplifies x / k and x % k for a constant k when x is affine in one ranged
+// variable: exact when the coefficient is a multiple of k, or when the whole range of x
+// lies in one quotient bucket.
+func (c *TermCtx) divRemFold(op Op, x *Term, k uint64) *Term {
+	w := int(x.w)
+	lo, hi := rng(x)
+	signed := op == OSDiv || op == OSRem
+	if signed && (hi >= uint64(1)<<(x.w-1) || k >= uint64(1)<<(x.w-1)) {
+		return nil
+	}
+	isDiv := op == OUDiv || op == OSDiv
+	if lo/k == hi/k {
+		q := lo / k
+		if isDiv {
+			return c.Const(w, q)
+		}
+		if q == 0 {
+			return x
+		}
+		if a, v, b, ok := affine(x); ok && b >= q*k {
+			return c.fromAffine(w, a, v, b-q*k)
+		}
+		return c.op(OSub, w, 0, x, c.Const(w, q*k))
+	}
+	if a, v, b, ok := affine(x); ok && v != nil && a%k == 0 {
+		if isDiv {
+			return c.fromAffine(w, a/k, v, b/k)
+		}
+		return c.Const(w, b%k)
+	}
+	return nil
 }
 
 func (c *TermCtx) Cmp(op Op, a, b *Term) *Term {
 	if a.w != b.w {
 		panic(fmt.Sprintf("cmp width mismatch %d %d", a.w, b.w))
 	}
-	if b.op == OConst && a.op != OConst {
-		switch op {
-		case OUlt:
-			if ubound(a) < b.val {
-				return c.True
-			}
-		case OUle:
-			if ubound(a) <= b.val {
-				return c.True
-			}
-		case OSlt, OSle:
-			// both non-negative as signed => same as unsigned
-			if ub := ubound(a); ub < uint64(1)<<(a.w-1) && b.val < uint64(1)<<(a.w-1) {
-				if op == OSlt && ub < b.val || op == OSle && ub <= b.val {
-					return c.True
-				}
-			}
-		}
-	}
-	if a.op == OConst && b.op != OConst {
-		switch op {
-		case OUlt:
-			if ubound(b) <= a.val {
-				return c.False
-			}
-		case OUle:
-			if ubound(b) < a.val {
-				return c.False
-			}
+	if a.op != OConst || b.op != OConst {
+		if v, ok := cmpFold(op, a, b); ok {
+			return c.Bool(v)
 		}
 	}
 	if a == b {
@@ -680,6 +914,11 @@ func (c *TermCtx) Bin(op Op, a, b *Term) *Term {
 		panic(fmt.Sprintf("bin %s width mismatch %d %d", opNames[op], a.w, b.w))
 	}
 	w := int(a.w)
+	if (op == OUDiv || op == OSDiv || op == OURem || op == OSRem) && b.op == OConst && b.val > 1 && a.op != OConst {
+		if r := c.divRemFold(op, a, b.val); r != nil {
+			return r
+		}
+	}
 	if (op == OAdd || op == OBOr || op == OBXor) && a.op != OConst && b.op != OConst {
 		if m := c.mergeDisjoint(a, b); m != nil {
 			return m
